@@ -37,6 +37,8 @@ def run(ctx):
         dlmain.check_protocol(ck, prog, config, {'scan-first': 'C11-a', 'reset-failed': 'C11-a', 'truncate': 'C11-e',
                                                  'complete': 'C11-e', 'gate': 'C11-e'})
         dlmain.check_open_flags(ck, prog, config, 'C11-a')
+        # the copy step of the restart takes chunks from the source only, under the full match guard
+        dlrules.copy_guard(ck, prog, config, 'C11-f')
         c09.scan_reads(ck, prog, config, 'C11-b', 'C11-b')
         # the rescan takes a short count for the end of the file: the read wrapper must make the two coincide
         from ..rules import shorteof
